@@ -9,7 +9,9 @@ Fault enumeration (unload-point enumeration) on the real overlays with *default*
   world is rebuilt, k events are replayed, ``unload()`` of the overlay under test is driven to completion
   (``quiet``: nothing is delivered meanwhile; ``race``: one in-flight datagram is delivered per loop iteration while
   the unload coroutine is pending; ``lost``: like quiet but everything the node sends while unloading is lost, so
-  its peers keep talking to it), and then the node is bombarded: everything still in flight, a replay of a valid
+  its peers keep talking to it; ``mid<j>``, j = 0..4: the k-th event is only started and exactly j single loop
+  iterations of it run before unload() is requested, i.e. unload lands between two loop iterations of a delivery,
+  a timer firing or an API call - e.g. between the two socket opens of an exit socket), and then the node is bombarded: everything still in flight, a replay of a valid
   datagram for every message id seen on the wire, a synthetic short datagram for each of the other ids 0..255,
   fresh valid requests of the peers, datagrams from the Internet on every socket the node opened, and 2 hours of
   virtual time;
@@ -60,6 +62,8 @@ PROBE_NAME = "c11 probe"
 OUTSIDE = ("9.9.9.9", 99)
 UNREACHABLE = ("9.9.9.1", 9)
 VARIANTS = ("quiet", "race", "lost")
+MID_STEPS = (0, 1, 2, 3, 4)          # `mid<j>`: unload requested j loop iterations into the k-th event
+MID_VARIANTS = tuple(f"mid{j}" for j in MID_STEPS)
 POST_UNLOAD_S = 7200.0
 PEERS_OFF_AFTER_S = 600.0     # quick tier: the peers are switched off this long after the unload
 
@@ -207,6 +211,15 @@ def instrument(ctx: "Ctx") -> None:
             rec.on_timeout(type(cache).__name__)
             return orig_timeout(cache)
         rc._on_timeout = on_timeout  # noqa: SLF001
+    if hasattr(ov, "send_data"):
+        # what an exit socket does with a datagram from outside: hand it to the overlay for tunnelling
+        orig_send_data = ov.send_data
+
+        def send_data(*a, **kw):  # noqa: ANN002, ANN003, ANN202
+            if rec.via == "exit-socket":
+                rec.on_handler("send_data(from exit socket)")
+            return orig_send_data(*a, **kw)
+        ov.send_data = send_data
     ep = ctx.nut.endpoint
     orig_deliver = ep._deliver_later  # noqa: SLF001
 
@@ -293,9 +306,17 @@ class Scenario:
     def stimulate(self, ctx: Ctx) -> None:
         """Fresh, valid requests of the peers to the (unloaded) node."""
 
-    def variants(self) -> tuple:
-        """`lost` differs from `quiet` only if unload() itself sends something (tunnel overlays: destroy messages)."""
-        return VARIANTS if issubclass(getattr(self, "cls", Community), TunnelCommunity) else VARIANTS[:2]
+    def variants(self, thorough: bool = False) -> tuple:
+        """
+        `lost` differs from `quiet` only if unload() itself sends something (tunnel overlays: destroy messages).
+        `mid<j>` (unload between two loop iterations of an event): every scenario in thorough; in quick the
+        scenarios whose node under test is the exit of the circuit (it owns real sockets that open asynchronously).
+        """
+        tunnel = issubclass(getattr(self, "cls", Community), TunnelCommunity)
+        base = VARIANTS if tunnel else VARIANTS[:2]
+        if thorough or (tunnel and getattr(self, "nut", "") == "X"):
+            return (*base, *MID_VARIANTS)
+        return base
 
 
 class TrivialCommunity(Community):
@@ -670,25 +691,56 @@ SCENARIOS = {s.name: s for s in all_scenarios()}
 # running a script event by event
 # ======================================================================================================================
 
-def events(ctx: Ctx, scn: Scenario):  # noqa: ANN201
-    """Generator: performs one event of the scripted run per next() and yields its description."""
+def events(ctx: Ctx, scn: Scenario, mid: tuple | None = None):  # noqa: ANN201
+    """
+    Generator: performs one event of the scripted run per next() and yields its description.
+
+    mid = (k, j): the k-th event (1-based) is only *started* - the action is called / the datagram is handed to the
+    loop / the clock is moved to the timer - and then exactly j single loop iterations run (no settle), so that the
+    caller can request unload() between two loop iterations of that event.
+    """
     w = ctx.w
     loop = w.loop
+    n = 0
+
+    def partial() -> bool:
+        return mid is not None and n + 1 == mid[0]
+
+    def spin() -> None:
+        for _ in range(mid[1]):
+            if loop.has_work():
+                loop.iteration()
+
     for label, act, seconds in scn.phases():
         if act is not None:
             act(ctx)
-            loop.settle()
+            if partial():
+                spin()
+            else:
+                loop.settle()
+            n += 1
             yield ("act", label)
         deadline = loop.time() + seconds
         while True:
             if w.inflight:
-                dg = w.deliver(0)
+                if partial():
+                    dg = w.deliver(0, settle=False)
+                    spin()
+                else:
+                    dg = w.deliver(0)
+                n += 1
                 yield ("datagram", dg.src[0], dg.dst[0], dg.data[22] if len(dg.data) > 22 else -1)
                 continue
             nt = loop.next_timer()
             if nt is None or nt > deadline + 1e-9:
                 break
-            loop.step_to_next_timer()
+            if partial():
+                loop.settle()
+                seams.CLOCK.set(nt)
+                spin()
+            else:
+                loop.step_to_next_timer()
+            n += 1
             yield ("timer", round(nt, 3))
         loop.advance_to(deadline)
 
@@ -863,7 +915,8 @@ def run_one(scn_name: str, k: int, variant: str, seed: int, thorough: bool):  # 
 
     try:
         instrument(ctx)
-        gen = events(ctx, scn)
+        mid_j = int(variant[3:]) if variant.startswith("mid") else None
+        gen = events(ctx, scn, (k, mid_j) if mid_j is not None and k > 0 else None)
         done = []
         for _ in range(k):
             try:
@@ -1310,14 +1363,16 @@ def run(ctx: core.Ctx) -> core.Report:
             samples.append({"scenario": s.name, "unload_after_event": k, "variant": s.variants()[len(samples) % 2],
                             "history": [list(e) for e in evs[:k]]})
         for k in range(len(evs) + 1):
-            for v in s.variants():
+            for v in s.variants(ctx.thorough):
+                if v.startswith("mid") and k == 0:
+                    continue                    # there is no event to be in the middle of
                 items.append((s.name, k, v))
         points += len(evs) + 1
     res = core.pmap(explore_points, items, ctx.jobs, chunk=3)
     seen_keys: dict = {}
     obs_set = set()
     execs = 0
-    rank = {v: i for i, v in enumerate(VARIANTS)}
+    rank = {v: i for i, v in enumerate((*VARIANTS, *MID_VARIANTS))}
     for scn_name, k, variant, v, obs in sorted(res, key=lambda r: (r[0], r[1], rank[r[2]])):
         execs += 1
         if obs is not None:
@@ -1354,7 +1409,7 @@ def run(ctx: core.Ctx) -> core.Report:
         "evaluations": execs + tm_execs,
         "distinct_nontrivial": len(obs_set) + tm_outcomes,
         "rule": "one evaluation = (a) one complete execution of real overlays with default settings: k events of a "
-                "scripted run, unload() of the overlay under test in one of the variants quiet/race/lost, late traffic "
+                "scripted run, unload() of the overlay under test in one of the variants quiet/race/lost/mid<j>, late traffic "
                 "(everything in flight, a valid datagram for every message id seen plus synthetic ones for all other "
                 "ids 0..255, fresh requests of the peers, datagrams from outside on the node's sockets) and 2 h of "
                 "virtual time, for EVERY k <= N of every scenario; or (b) one sequence of TaskManager operations "
@@ -1368,7 +1423,10 @@ def run(ctx: core.Ctx) -> core.Report:
         "exhaustive": True,
         "scenarios": per,
         "unload_points": points,
-        "variants": {"tunnel overlays": list(VARIANTS), "other overlays": list(VARIANTS[:2])},
+        "variants": {"tunnel overlays": list(VARIANTS), "other overlays": list(VARIANTS[:2]),
+                     "mid<j> (unload j loop iterations into event k, k >= 1)": {
+                         "j": list(MID_STEPS),
+                         "scenarios": "all" if ctx.thorough else sorted(s.name for s in scns if len(s.variants()) > 3)}},
         "unload_executions": execs,
         "distinct_unload_observations": len(obs_set),
         "taskmanager_depth": _TM_DEPTH,
